@@ -127,12 +127,13 @@ theorem find_append_hit {m : Nat} (l : List Tr) (x : Tr) (hl : ∀ t ∈ l, hasM
 
 /-! ### the invariant of the answer window -/
 
-/-- Every offered section that carries a direction has its transceiver — the first one with its mid, which is
-    the one CreateAnswer will pick — holding that direction as currentRemoteDirection and a direction that is
-    a legal answer to it. -/
+/-- Every offered section has its transceiver — the first one with its mid, which is the one CreateAnswer will
+    pick — holding the section's direction (sendrecv when it has no direction attribute) as
+    currentRemoteDirection and a direction that is a legal answer to it. -/
 def Ready (off : List Sec) (ts : List Tr) : Prop :=
-  ∀ sec ∈ off, ∀ d, sec.dir = some d →
-    ∃ t, ts.find? (hasMid sec.mid) = some t ∧ t.curRemote = some d ∧ legal d t.dir = true
+  ∀ sec ∈ off,
+    ∃ t, ts.find? (hasMid sec.mid) = some t ∧ t.curRemote = some (effDir sec.dir) ∧
+      legal (effDir sec.dir) t.dir = true
 
 /-- transceivers already taken out of the local slice do not carry a mid that is still to be processed -/
 def NoTakenMid (w : Work) (rest : List Sec) : Prop :=
@@ -205,99 +206,92 @@ theorem srdSection_step {adj : Dir → Dir → Dir} (hadj : AdjOK adj)
     exact h2.1 (e ▸ List.mem_map_of_mem hsec)
   have hnt' : NoTakenMid w rest := fun x hx hav sec hsec => hnt x hx hav sec (List.mem_cons_of_mem _ hsec)
   unfold srdSection
-  cases hdir : s.dir with
-  | none =>
-    refine ⟨?_, hnt'⟩
-    intro sec hsec d hsd
-    rcases List.mem_append.mp hsec with h | h
-    · exact hr sec h d hsd
-    · simp only [List.mem_singleton] at h; subst h; rw [hdir] at hsd; cases hsd
-  | some d =>
+  simp only
+  generalize hdir : effDir s.dir = d
+  -- a generic closing argument: `w' = pre ++ (t', false) :: post`, `w = pre ++ (t, true) :: post`,
+  -- `t'` carries `s.mid` with the right state, nothing in `pre` carries it, `t` carried it or nothing
+  have close : ∀ (pre post : Work) (t t' : Tr), w = pre ++ (t, true) :: post →
+      (∀ x ∈ Work.toList pre, hasMid s.mid x = false) →
+      (t.mid = some s.mid ∨ t.mid = none) → t'.mid = some s.mid → t'.curRemote = some d →
+      legal d t'.dir = true →
+      Ready (done ++ [s]) (Work.toList (pre ++ (t', false) :: post)) ∧
+        NoTakenMid (pre ++ (t', false) :: post) rest := by
+    intro pre post t t' hw hpre htm ht'm ht'c ht'l
+    constructor
+    · intro sec hsec
+      rcases List.mem_append.mp hsec with h | h
+      · obtain ⟨u, hu1, hu2, hu3⟩ := hr sec h
+        refine ⟨u, ?_, hu2, hu3⟩
+        rw [← hu1, hw, toList_append, toList_cons, toList_append, toList_cons]
+        apply find_replace_other
+        · rcases htm with h1 | h1
+          · exact hasMid_ne h1 (hdm sec h)
+          · exact hasMid_none h1
+        · exact hasMid_ne ht'm (hdm sec h)
+      · simp only [List.mem_singleton] at h; subst h
+        rw [hdir]
+        refine ⟨t', ?_, ht'c, ht'l⟩
+        rw [toList_append, toList_cons]
+        exact find_replace_hit _ _ _ hpre (hasMid_of_mid ht'm)
+    · intro x hx hav sec hsec
+      rcases List.mem_append.mp hx with h | h
+      · exact hnt' x (by rw [hw]; exact List.mem_append_left _ h) hav sec hsec
+      · rcases List.mem_cons.mp h with h | h
+        · subst h; exact hasMid_ne ht'm (hrm sec hsec)
+        · exact hnt' x (by rw [hw]; exact List.mem_append_right _ (List.mem_cons_of_mem _ h)) hav sec hsec
+  cases hp : pluck (hasMid s.mid) (applyByMid adj d) w with
+  | some r =>
+    obtain ⟨t, w1⟩ := r
     simp only
-    -- a generic closing argument: `w' = pre ++ (t', false) :: post`, `w = pre ++ (t, true) :: post`,
-    -- `t'` carries `s.mid` with the right state, nothing in `pre` carries it, `t` carried it or nothing
-    have close : ∀ (pre post : Work) (t t' : Tr), w = pre ++ (t, true) :: post →
-        (∀ x ∈ Work.toList pre, hasMid s.mid x = false) →
-        (t.mid = some s.mid ∨ t.mid = none) → t'.mid = some s.mid → t'.curRemote = some d →
-        legal d t'.dir = true →
-        Ready (done ++ [s]) (Work.toList (pre ++ (t', false) :: post)) ∧
-          NoTakenMid (pre ++ (t', false) :: post) rest := by
-      intro pre post t t' hw hpre htm ht'm ht'c ht'l
-      constructor
-      · intro sec hsec d' hsd
-        rcases List.mem_append.mp hsec with h | h
-        · obtain ⟨u, hu1, hu2, hu3⟩ := hr sec h d' hsd
-          refine ⟨u, ?_, hu2, hu3⟩
-          rw [← hu1, hw, toList_append, toList_cons, toList_append, toList_cons]
-          apply find_replace_other
-          · rcases htm with h1 | h1
-            · exact hasMid_ne h1 (hdm sec h)
-            · exact hasMid_none h1
-          · exact hasMid_ne ht'm (hdm sec h)
-        · simp only [List.mem_singleton] at h; subst h
-          rw [hdir] at hsd; cases hsd
-          refine ⟨t', ?_, ht'c, ht'l⟩
-          rw [toList_append, toList_cons]
-          exact find_replace_hit _ _ _ hpre (hasMid_of_mid ht'm)
-      · intro x hx hav sec hsec
-        rcases List.mem_append.mp hx with h | h
-        · exact hnt' x (by rw [hw]; exact List.mem_append_left _ h) hav sec hsec
-        · rcases List.mem_cons.mp h with h | h
-          · subst h; exact hasMid_ne ht'm (hrm sec hsec)
-          · exact hnt' x (by rw [hw]; exact List.mem_append_right _ (List.mem_cons_of_mem _ h)) hav sec hsec
-    cases hp : pluck (hasMid s.mid) (applyByMid adj d) w with
-    | some r =>
-      obtain ⟨t, w1⟩ := r
+    obtain ⟨pre, post, h1, h2, h3, h4⟩ := pluck_some hp
+    subst h2
+    have htmid : t.mid = some s.mid := by simpa [hasMid] using h3
+    refine close pre post t (applyByMid adj d t) h1 ?_ (Or.inl htmid) ?_ ?_ ?_
+    · exact pre_no_mid (w := w) (fun x hx => by rw [h1]; exact List.mem_append_left _ hx) rfl h4 hnt
+    · unfold applyByMid; by_cases hi : d = .inactive <;> simp [hi, Tr.stop, htmid]
+    · unfold applyByMid; simp
+    · unfold applyByMid
+      by_cases hi : d = .inactive
+      · subst hi; simpa [Tr.stop] using hadj.2
+      · simpa [hi] using hadj.1 d t.dir hi
+  | none =>
+    simp only
+    have hno : ∀ t ∈ Work.toList w, hasMid s.mid t = false :=
+      pre_no_mid (w := w) (fun x hx => hx) rfl (pluck_none hp) hnt
+    cases hs : satisfy adj s.kind s.mid d (preferred d) w with
+    | some w1 =>
       simp only
-      obtain ⟨pre, post, h1, h2, h3, h4⟩ := pluck_some hp
+      obtain ⟨pre, t, post, h1, h2, h3⟩ := satisfy_some hs
       subst h2
-      have htmid : t.mid = some s.mid := by simpa [hasMid] using h3
-      refine close pre post t (applyByMid adj d t) h1 ?_ (Or.inl htmid) ?_ ?_ ?_
-      · exact pre_no_mid (w := w) (fun x hx => by rw [h1]; exact List.mem_append_left _ hx) rfl h4 hnt
-      · unfold applyByMid; by_cases hi : d = .inactive <;> simp [hi, Tr.stop, htmid]
-      · unfold applyByMid; simp
-      · unfold applyByMid
-        by_cases hi : d = .inactive
-        · subst hi; simpa [Tr.stop] using hadj.2
-        · simpa [hi] using hadj.1 d t.dir hi
+      refine close pre post t (applySatisfied adj s.mid d t) h1 ?_ (Or.inr h3) ?_ ?_ ?_
+      · intro x hx; apply hno; rw [h1, toList_append]; exact List.mem_append_left _ hx
+      · simp [applySatisfied]
+      · simp [applySatisfied]
+      · have hi : d ≠ .inactive := by
+          intro e; subst e; simp [preferred, satisfy] at hs
+        simpa [applySatisfied] using hadj.1 d t.dir hi
     | none =>
       simp only
-      have hno : ∀ t ∈ Work.toList w, hasMid s.mid t = false :=
-        pre_no_mid (w := w) (fun x hx => hx) rfl (pluck_none hp) hnt
-      cases hs : satisfy adj s.kind s.mid d (preferred d) w with
-      | some w1 =>
-        simp only
-        obtain ⟨pre, t, post, h1, h2, h3⟩ := satisfy_some hs
-        subst h2
-        refine close pre post t (applySatisfied adj s.mid d t) h1 ?_ (Or.inr h3) ?_ ?_ ?_
-        · intro x hx; apply hno; rw [h1, toList_append]; exact List.mem_append_left _ hx
-        · simp [applySatisfied]
-        · simp [applySatisfied]
-        · have hi : d ≠ .inactive := by
-            intro e; subst e; simp [preferred, satisfy] at hs
-          simpa [applySatisfied] using hadj.1 d t.dir hi
-      | none =>
-        simp only
-        constructor
-        · intro sec hsec d' hsd
-          rcases List.mem_append.mp hsec with h | h
-          · obtain ⟨u, hu1, hu2, hu3⟩ := hr sec h d' hsd
-            refine ⟨u, ?_, hu2, hu3⟩
-            rw [← hu1, toList_append]
-            show (Work.toList w ++ [newFromRemote s.mid s.kind d]).find? _ = _
-            apply find_append_miss
-            exact hasMid_ne (by simp [newFromRemote]) (hdm sec h)
-          · simp only [List.mem_singleton] at h; subst h
-            rw [hdir] at hsd; cases hsd
-            refine ⟨newFromRemote sec.mid sec.kind d, ?_, by simp [newFromRemote], by simp [newFromRemote, newDir_legal]⟩
-            rw [toList_append]
-            show (Work.toList w ++ [newFromRemote sec.mid sec.kind d]).find? _ = _
-            exact find_append_hit _ _ hno (by simp [hasMid, newFromRemote])
-        · intro x hx hav sec hsec
-          rcases List.mem_append.mp hx with h | h
-          · exact hnt' x h hav sec hsec
-          · simp only [List.mem_singleton] at h; subst h
-            exact hasMid_ne (by simp [newFromRemote]) (hrm sec hsec)
+      constructor
+      · intro sec hsec
+        rcases List.mem_append.mp hsec with h | h
+        · obtain ⟨u, hu1, hu2, hu3⟩ := hr sec h
+          refine ⟨u, ?_, hu2, hu3⟩
+          rw [← hu1, toList_append]
+          show (Work.toList w ++ [newFromRemote s.mid s.kind d]).find? _ = _
+          apply find_append_miss
+          exact hasMid_ne (by simp [newFromRemote]) (hdm sec h)
+        · simp only [List.mem_singleton] at h; subst h
+          rw [hdir]
+          refine ⟨newFromRemote sec.mid sec.kind d, ?_, by simp [newFromRemote], by simp [newFromRemote, newDir_legal]⟩
+          rw [toList_append]
+          show (Work.toList w ++ [newFromRemote sec.mid sec.kind d]).find? _ = _
+          exact find_append_hit _ _ hno (by simp [hasMid, newFromRemote])
+      · intro x hx hav sec hsec
+        rcases List.mem_append.mp hx with h | h
+        · exact hnt' x h hav sec hsec
+        · simp only [List.mem_singleton] at h; subst h
+          exact hasMid_ne (by simp [newFromRemote]) (hrm sec hsec)
 
 /-- The whole loop: every section of the offer ends up ready. -/
 theorem srdLoop_ready {adj : Dir → Dir → Dir} (hadj : AdjOK adj) :
@@ -335,13 +329,12 @@ theorem hasMid_narrowTr (m : Nat) (nar : Option (Dir → Dir → Dir)) (d : Dir)
     hasMid m (narrowTr nar d t) = hasMid m t := by
   simp [hasMid, narrowTr_mid]
 
-/-- `ans` answers `off` one-for-one, in order: a section without direction attribute is skipped, every other
-    section is answered by a section with its mid whose direction is `f offered local` for some local `l`. -/
+/-- `ans` answers `off` one-for-one, in order: every section is answered by a section with its mid whose
+    direction is `f offered local` for some local `l` (`offered` = sendrecv when the attribute is absent). -/
 inductive AnswersBy (f : Dir → Dir → Dir) : List Sec → List Sec → Prop
   | nil : AnswersBy f [] []
-  | skip {s : Sec} {off ans : List Sec} : s.dir = none → AnswersBy f off ans → AnswersBy f (s :: off) ans
-  | cons {s a : Sec} {off ans : List Sec} (d l : Dir) : s.dir = some d → a.mid = s.mid →
-      a.dir = some (f d l) → AnswersBy f off ans → AnswersBy f (s :: off) (a :: ans)
+  | cons {s a : Sec} {off ans : List Sec} (l : Dir) : a.mid = s.mid →
+      a.dir = some (f (effDir s.dir) l) → AnswersBy f off ans → AnswersBy f (s :: off) (a :: ans)
 
 theorem matchedLoop_answersBy (f : Dir → Dir → Dir) : ∀ (off : List Sec) (w : Work) (ans : List Sec),
     (matchedLoop (some f) w off).1 = some ans → AnswersBy f off ans := by
@@ -351,60 +344,47 @@ theorem matchedLoop_answersBy (f : Dir → Dir → Dir) : ∀ (off : List Sec) (
   | cons s rest ih =>
     intro w ans h
     unfold matchedLoop at h
-    cases hdir : s.dir with
-    | none => rw [hdir] at h; exact .skip hdir (ih w ans h)
-    | some d =>
-      rw [hdir] at h; simp only at h
-      cases hp : pluck (hasMid s.mid) (narrowTr (some f) d) w with
-      | none => rw [hp] at h; simp at h
-      | some r =>
-        obtain ⟨t, w1⟩ := r
-        rw [hp] at h; simp only at h
-        cases hm : (matchedLoop (some f) w1 rest).1 with
-        | none => rw [hm] at h; simp at h
-        | some out =>
-          rw [hm] at h
-          simp only [Option.map_some, Option.some.injEq] at h
-          subst h
-          exact .cons d t.dir hdir rfl rfl (ih w1 out hm)
+    cases hp : pluck (hasMid s.mid) (narrowTr (some f) (effDir s.dir)) w with
+    | none => rw [hp] at h; simp at h
+    | some r =>
+      obtain ⟨t, w1⟩ := r
+      rw [hp] at h; simp only at h
+      cases hm : (matchedLoop (some f) w1 rest).1 with
+      | none => rw [hm] at h; simp at h
+      | some out =>
+        rw [hm] at h
+        simp only [Option.map_some, Option.some.injEq] at h
+        subst h
+        exact .cons t.dir rfl rfl (ih w1 out hm)
 
 theorem AnswersBy.mem {f : Dir → Dir → Dir} {off ans : List Sec} (h : AnswersBy f off ans) :
-    ∀ a ∈ ans, ∃ sec ∈ off, sec.mid = a.mid ∧ ∃ d l, sec.dir = some d ∧ a.dir = some (f d l) := by
+    ∀ a ∈ ans, ∃ sec ∈ off, sec.mid = a.mid ∧ ∃ l, a.dir = some (f (effDir sec.dir) l) := by
   induction h with
   | nil => intro a ha; cases ha
-  | skip _ _ ih =>
-    intro a ha
-    obtain ⟨sec, h1, h2⟩ := ih a ha
-    exact ⟨sec, List.mem_cons_of_mem _ h1, h2⟩
-  | @cons s a0 off ans d l hd hm hdir _ ih =>
+  | @cons s a0 off ans l hm hdir _ ih =>
     intro a ha
     rcases List.mem_cons.mp ha with rfl | ha
-    · exact ⟨s, by simp, hm.symm, d, l, hd, hdir⟩
+    · exact ⟨s, by simp, hm.symm, l, hdir⟩
     · obtain ⟨sec, h1, h2⟩ := ih a ha
       exact ⟨sec, List.mem_cons_of_mem _ h1, h2⟩
 
 theorem AnswersBy.covers {f : Dir → Dir → Dir} {off ans : List Sec} (h : AnswersBy f off ans) :
-    ∀ sec ∈ off, sec.dir.isSome = true → ∃ a ∈ ans, a.mid = sec.mid := by
+    ∀ sec ∈ off, ∃ a ∈ ans, a.mid = sec.mid := by
   induction h with
   | nil => intro sec hs; cases hs
-  | @skip s off ans hd _ ih =>
-    intro sec hs hsome
-    rcases List.mem_cons.mp hs with rfl | hs
-    · rw [hd] at hsome; cases hsome
-    · exact ih sec hs hsome
-  | @cons s a0 off ans d l hd hm hdir _ ih =>
-    intro sec hs hsome
+  | @cons s a0 off ans l hm hdir _ ih =>
+    intro sec hs
     rcases List.mem_cons.mp hs with rfl | hs
     · exact ⟨a0, by simp, hm⟩
-    · obtain ⟨a, h1, h2⟩ := ih sec hs hsome
+    · obtain ⟨a, h1, h2⟩ := ih sec hs
       exact ⟨a, List.mem_cons_of_mem _ h1, h2⟩
 
-theorem AnswersBy.sublist {f : Dir → Dir → Dir} {off ans : List Sec} (h : AnswersBy f off ans) :
-    (ans.map (·.mid)).Sublist (off.map (·.mid)) := by
+/-- the answer has exactly the mids of the offer, in order -/
+theorem AnswersBy.mids {f : Dir → Dir → Dir} {off ans : List Sec} (h : AnswersBy f off ans) :
+    ans.map (·.mid) = off.map (·.mid) := by
   induction h with
-  | nil => simp
-  | skip _ _ ih => exact ih.trans (by simp)
-  | @cons s a0 off ans d l hd hm hdir _ ih => simpa [hm] using ih
+  | nil => rfl
+  | @cons s a0 off ans l hm hdir _ ih => simp [hm, ih]
 
 /-- the loop never moves the first carrier of a mid that none of its sections uses -/
 theorem matchedLoop_find_other (nar : Option (Dir → Dir → Dir)) : ∀ (off : List Sec) (w : Work) (m : Nat),
@@ -417,23 +397,19 @@ theorem matchedLoop_find_other (nar : Option (Dir → Dir → Dir)) : ∀ (off :
     intro w m hne
     have hne' : ∀ sec ∈ rest, sec.mid ≠ m := fun sec h => hne sec (List.mem_cons_of_mem _ h)
     unfold matchedLoop
-    cases hdir : s.dir with
-    | none => exact ih w m hne'
-    | some d =>
+    cases hp : pluck (hasMid s.mid) (narrowTr nar (effDir s.dir)) w with
+    | none => rfl
+    | some r =>
+      obtain ⟨t, w1⟩ := r
       simp only
-      cases hp : pluck (hasMid s.mid) (narrowTr nar d) w with
-      | none => rfl
-      | some r =>
-        obtain ⟨t, w1⟩ := r
-        simp only
-        rw [ih w1 m hne']
-        obtain ⟨pre, post, g1, g2, g3, _⟩ := pluck_some hp
-        have htmid : t.mid = some s.mid := by simpa [hasMid] using g3
-        have hm : m ≠ s.mid := fun e => hne s (by simp) e.symm
-        rw [g1, g2, toList_append, toList_cons, toList_append, toList_cons]
-        apply find_replace_other
-        · exact hasMid_ne htmid hm
-        · rw [hasMid_narrowTr]; exact hasMid_ne htmid hm
+      rw [ih w1 m hne']
+      obtain ⟨pre, post, g1, g2, g3, _⟩ := pluck_some hp
+      have htmid : t.mid = some s.mid := by simpa [hasMid] using g3
+      have hm : m ≠ s.mid := fun e => hne s (by simp) e.symm
+      rw [g1, g2, toList_append, toList_cons, toList_append, toList_cons]
+      apply find_replace_other
+      · exact hasMid_ne htmid hm
+      · rw [hasMid_narrowTr]; exact hasMid_ne htmid hm
 
 /-- the loop changes no mid -/
 theorem matchedLoop_mids (nar : Option (Dir → Dir → Dir)) : ∀ (off : List Sec) (w : Work),
@@ -444,19 +420,15 @@ theorem matchedLoop_mids (nar : Option (Dir → Dir → Dir)) : ∀ (off : List 
   | cons s rest ih =>
     intro w
     unfold matchedLoop
-    cases hdir : s.dir with
-    | none => exact ih w
-    | some d =>
+    cases hp : pluck (hasMid s.mid) (narrowTr nar (effDir s.dir)) w with
+    | none => rfl
+    | some r =>
+      obtain ⟨t, w1⟩ := r
       simp only
-      cases hp : pluck (hasMid s.mid) (narrowTr nar d) w with
-      | none => rfl
-      | some r =>
-        obtain ⟨t, w1⟩ := r
-        simp only
-        rw [ih w1]
-        obtain ⟨pre, post, g1, g2, _, _⟩ := pluck_some hp
-        rw [g1, g2]
-        simp [toList_append, toList_cons, narrowTr_mid]
+      rw [ih w1]
+      obtain ⟨pre, post, g1, g2, _, _⟩ := pluck_some hp
+      rw [g1, g2]
+      simp [toList_append, toList_cons, narrowTr_mid]
 
 private theorem distinct_tail {s : Sec} {rest : List Sec} (hd : Distinct (s :: rest)) :
     Distinct rest ∧ ∀ sec ∈ rest, sec.mid ≠ s.mid := by
@@ -487,40 +459,35 @@ theorem matchedLoop_result (nar : Option (Dir → Dir → Dir)) : ∀ (off : Lis
   | cons s rest ih =>
     intro w ans hd hnt h
     obtain ⟨hd', hrm⟩ := distinct_tail hd
-    have hnt' : NoTakenMid w rest := fun x hx hav sec hsec => hnt x hx hav sec (List.mem_cons_of_mem _ hsec)
     unfold matchedLoop at h ⊢
-    cases hdir : s.dir with
-    | none => rw [hdir] at h; exact ih w ans hd' hnt' h
-    | some d =>
-      rw [hdir] at h; simp only at h ⊢
-      cases hp : pluck (hasMid s.mid) (narrowTr nar d) w with
-      | none => rw [hp] at h; simp at h
-      | some r =>
-        obtain ⟨t, w1⟩ := r
-        rw [hp] at h; simp only at h ⊢
-        cases hm : (matchedLoop nar w1 rest).1 with
-        | none => rw [hm] at h; simp at h
-        | some out =>
-          rw [hm] at h
-          simp only [Option.map_some, Option.some.injEq] at h
-          subst h
-          obtain ⟨pre, post, g1, g2, g3, g4⟩ := pluck_some hp
-          have htmid : t.mid = some s.mid := by simpa [hasMid] using g3
-          have hpre := pre_no_mid (w := w) (fun x hx => by rw [g1]; exact List.mem_append_left _ hx) rfl g4 hnt
-          have hnt1 : NoTakenMid w1 rest := by
-            rw [g2]; exact noTaken_after_pluck g1 hnt (by rw [narrowTr_mid]; exact htmid) hrm
-          intro a ha
-          rcases List.mem_cons.mp ha with rfl | ha
-          · refine ⟨narrowTr nar d t, ?_, rfl⟩
-            show (Work.toList (matchedLoop nar w1 rest).2).find? (hasMid s.mid) = _
-            rw [matchedLoop_find_other nar rest w1 s.mid hrm, g2, toList_append, toList_cons]
-            exact find_replace_hit _ _ _ hpre (by rw [hasMid_narrowTr]; exact g3)
-          · exact ih w1 out hd' hnt1 hm a ha
+    cases hp : pluck (hasMid s.mid) (narrowTr nar (effDir s.dir)) w with
+    | none => rw [hp] at h; simp at h
+    | some r =>
+      obtain ⟨t, w1⟩ := r
+      rw [hp] at h; simp only at h ⊢
+      cases hm : (matchedLoop nar w1 rest).1 with
+      | none => rw [hm] at h; simp at h
+      | some out =>
+        rw [hm] at h
+        simp only [Option.map_some, Option.some.injEq] at h
+        subst h
+        obtain ⟨pre, post, g1, g2, g3, g4⟩ := pluck_some hp
+        have htmid : t.mid = some s.mid := by simpa [hasMid] using g3
+        have hpre := pre_no_mid (w := w) (fun x hx => by rw [g1]; exact List.mem_append_left _ hx) rfl g4 hnt
+        have hnt1 : NoTakenMid w1 rest := by
+          rw [g2]; exact noTaken_after_pluck g1 hnt (by rw [narrowTr_mid]; exact htmid) hrm
+        intro a ha
+        rcases List.mem_cons.mp ha with rfl | ha
+        · refine ⟨narrowTr nar (effDir s.dir) t, ?_, rfl⟩
+          show (Work.toList (matchedLoop nar w1 rest).2).find? (hasMid s.mid) = _
+          rw [matchedLoop_find_other nar rest w1 s.mid hrm, g2, toList_append, toList_cons]
+          exact find_replace_hit _ _ _ hpre (by rw [hasMid_narrowTr]; exact g3)
+        · exact ih w1 out hd' hnt1 hm a ha
 
-/-- The loop cannot fail when every section with a direction has a carrier of its mid. -/
+/-- The loop cannot fail when every section has a carrier of its mid. -/
 theorem matchedLoop_isSome (nar : Option (Dir → Dir → Dir)) : ∀ (off : List Sec) (w : Work),
     Distinct off → NoTakenMid w off →
-    (∀ sec ∈ off, sec.dir.isSome = true → ((Work.toList w).find? (hasMid sec.mid)).isSome = true) →
+    (∀ sec ∈ off, ((Work.toList w).find? (hasMid sec.mid)).isSome = true) →
     (matchedLoop nar w off).1.isSome = true := by
   intro off
   induction off with
@@ -528,42 +495,36 @@ theorem matchedLoop_isSome (nar : Option (Dir → Dir → Dir)) : ∀ (off : Lis
   | cons s rest ih =>
     intro w hd hnt hc
     obtain ⟨hd', hrm⟩ := distinct_tail hd
-    have hnt' : NoTakenMid w rest := fun x hx hav sec hsec => hnt x hx hav sec (List.mem_cons_of_mem _ hsec)
-    have hc' : ∀ sec ∈ rest, sec.dir.isSome = true → ((Work.toList w).find? (hasMid sec.mid)).isSome = true :=
+    have hc' : ∀ sec ∈ rest, ((Work.toList w).find? (hasMid sec.mid)).isSome = true :=
       fun sec hsec => hc sec (List.mem_cons_of_mem _ hsec)
     unfold matchedLoop
-    cases hdir : s.dir with
-    | none => exact ih w hd' hnt' hc'
-    | some d =>
+    cases hp : pluck (hasMid s.mid) (narrowTr nar (effDir s.dir)) w with
+    | none =>
+      exfalso
+      have hno : ∀ t ∈ Work.toList w, hasMid s.mid t = false :=
+        pre_no_mid (w := w) (fun x hx => hx) rfl (pluck_none hp) hnt
+      have := hc s (by simp)
+      rw [find_none_of_forall hno] at this
+      cases this
+    | some r =>
+      obtain ⟨t, w1⟩ := r
       simp only
-      cases hp : pluck (hasMid s.mid) (narrowTr nar d) w with
-      | none =>
-        exfalso
-        have hno : ∀ t ∈ Work.toList w, hasMid s.mid t = false :=
-          pre_no_mid (w := w) (fun x hx => hx) rfl (pluck_none hp) hnt
-        have := hc s (by simp) (by simp [hdir])
-        rw [find_none_of_forall hno] at this
-        cases this
-      | some r =>
-        obtain ⟨t, w1⟩ := r
-        simp only
-        obtain ⟨pre, post, g1, g2, g3, _⟩ := pluck_some hp
-        have htmid : t.mid = some s.mid := by simpa [hasMid] using g3
-        have hnt1 : NoTakenMid w1 rest := by
-          rw [g2]; exact noTaken_after_pluck g1 hnt (by rw [narrowTr_mid]; exact htmid) hrm
-        have hc1 : ∀ sec ∈ rest, sec.dir.isSome = true →
-            ((Work.toList w1).find? (hasMid sec.mid)).isSome = true := by
-          intro sec hsec hsome
-          have : (Work.toList w1).find? (hasMid sec.mid) = (Work.toList w).find? (hasMid sec.mid) := by
-            rw [g1, g2, toList_append, toList_cons, toList_append, toList_cons]
-            apply find_replace_other
-            · exact hasMid_ne htmid (hrm sec hsec)
-            · rw [hasMid_narrowTr]; exact hasMid_ne htmid (hrm sec hsec)
-          rw [this]; exact hc' sec hsec hsome
-        have := ih w1 hd' hnt1 hc1
-        cases hm : (matchedLoop nar w1 rest).1 with
-        | none => rw [hm] at this; cases this
-        | some _ => rfl
+      obtain ⟨pre, post, g1, g2, g3, _⟩ := pluck_some hp
+      have htmid : t.mid = some s.mid := by simpa [hasMid] using g3
+      have hnt1 : NoTakenMid w1 rest := by
+        rw [g2]; exact noTaken_after_pluck g1 hnt (by rw [narrowTr_mid]; exact htmid) hrm
+      have hc1 : ∀ sec ∈ rest, ((Work.toList w1).find? (hasMid sec.mid)).isSome = true := by
+        intro sec hsec
+        have : (Work.toList w1).find? (hasMid sec.mid) = (Work.toList w).find? (hasMid sec.mid) := by
+          rw [g1, g2, toList_append, toList_cons, toList_append, toList_cons]
+          apply find_replace_other
+          · exact hasMid_ne htmid (hrm sec hsec)
+          · rw [hasMid_narrowTr]; exact hasMid_ne htmid (hrm sec hsec)
+        rw [this]; exact hc' sec hsec
+      have := ih w1 hd' hnt1 hc1
+      cases hm : (matchedLoop nar w1 rest).1 with
+      | none => rw [hm] at this; cases this
+      | some _ => rfl
 
 /-! ### CreateAnswer on a `Ready` window changes nothing -/
 
@@ -578,44 +539,37 @@ theorem matchedLoop_keeps (f : Dir → Dir → Dir) (hf : ∀ d l, legal d l = t
   | cons s rest ih =>
     intro w hd hnt hr
     obtain ⟨hd', hrm⟩ := distinct_tail hd
-    have hnt' : NoTakenMid w rest := fun x hx hav sec hsec => hnt x hx hav sec (List.mem_cons_of_mem _ hsec)
     have hr' : Ready rest (Work.toList w) := fun sec hsec => hr sec (List.mem_cons_of_mem _ hsec)
     unfold matchedLoop
-    cases hdir : s.dir with
-    | none => exact ih w hd' hnt' hr'
-    | some d =>
+    cases hp : pluck (hasMid s.mid) (narrowTr (some f) (effDir s.dir)) w with
+    | none => rfl
+    | some r =>
+      obtain ⟨t, w1⟩ := r
       simp only
-      cases hp : pluck (hasMid s.mid) (narrowTr (some f) d) w with
-      | none => rfl
-      | some r =>
-        obtain ⟨t, w1⟩ := r
-        simp only
-        obtain ⟨pre, post, g1, g2, g3, g4⟩ := pluck_some hp
-        have htmid : t.mid = some s.mid := by simpa [hasMid] using g3
-        have hpre := pre_no_mid (w := w) (fun x hx => by rw [g1]; exact List.mem_append_left _ hx) rfl g4 hnt
-        have hfirst : (Work.toList w).find? (hasMid s.mid) = some t := by
-          rw [g1, toList_append, toList_cons]; exact find_replace_hit _ _ _ hpre g3
-        obtain ⟨t', e1, _, e3⟩ := hr s (by simp) d hdir
-        rw [hfirst] at e1; cases e1
-        have hid : narrowTr (some f) d t = t := by
-          simp only [narrowTr, hf d t.dir e3]
-        have htl : Work.toList w1 = Work.toList w := by
-          rw [g1, g2, hid]; simp [toList_append, toList_cons]
-        have hnt1 : NoTakenMid w1 rest := by
-          rw [g2]; exact noTaken_after_pluck g1 hnt (by rw [narrowTr_mid]; exact htmid) hrm
-        rw [ih w1 hd' hnt1 (by rw [htl]; exact hr'), htl]
+      obtain ⟨pre, post, g1, g2, g3, g4⟩ := pluck_some hp
+      have htmid : t.mid = some s.mid := by simpa [hasMid] using g3
+      have hpre := pre_no_mid (w := w) (fun x hx => by rw [g1]; exact List.mem_append_left _ hx) rfl g4 hnt
+      have hfirst : (Work.toList w).find? (hasMid s.mid) = some t := by
+        rw [g1, toList_append, toList_cons]; exact find_replace_hit _ _ _ hpre g3
+      obtain ⟨t', e1, _, e3⟩ := hr s (by simp)
+      rw [hfirst] at e1; cases e1
+      have hid : narrowTr (some f) (effDir s.dir) t = t := by
+        simp only [narrowTr, hf _ t.dir e3]
+      have htl : Work.toList w1 = Work.toList w := by
+        rw [g1, g2, hid]; simp [toList_append, toList_cons]
+      have hnt1 : NoTakenMid w1 rest := by
+        rw [g2]; exact noTaken_after_pluck g1 hnt (by rw [narrowTr_mid]; exact htmid) hrm
+      rw [ih w1 hd' hnt1 (by rw [htl]; exact hr'), htl]
 
 /-! ### carriers: the weaker window invariant that survives a direct SetSender -/
 
-/-- every offered section with a direction has a transceiver carrying its mid -/
+/-- every offered section has a transceiver carrying its mid -/
 def Carrier (off : List Sec) (ts : List Tr) : Prop :=
-  ∀ sec ∈ off, sec.dir.isSome = true → (ts.find? (hasMid sec.mid)).isSome = true
+  ∀ sec ∈ off, (ts.find? (hasMid sec.mid)).isSome = true
 
 theorem Ready.carrier {off : List Sec} {ts : List Tr} (h : Ready off ts) : Carrier off ts := by
-  intro sec hsec hsome
-  cases hd : sec.dir with
-  | none => rw [hd] at hsome; cases hsome
-  | some d => obtain ⟨t, ht, _⟩ := h sec hsec d hd; rw [ht]; rfl
+  intro sec hsec
+  obtain ⟨t, ht, _⟩ := h sec hsec; rw [ht]; rfl
 
 theorem find_isSome_iff_mem {m : Nat} {ts : List Tr} :
     (ts.find? (hasMid m)).isSome = true ↔ some m ∈ ts.map (·.mid) := by
@@ -626,7 +580,7 @@ theorem find_isSome_iff_mem {m : Nat} {ts : List Tr} :
 
 theorem Carrier.mono {off : List Sec} {ts ts' : List Tr}
     (h : ∀ x, x ∈ ts.map (·.mid) → x ∈ ts'.map (·.mid)) (hc : Carrier off ts) : Carrier off ts' :=
-  fun sec hsec hsome => find_isSome_iff_mem.mpr (h _ (find_isSome_iff_mem.mp (hc sec hsec hsome)))
+  fun sec hsec => find_isSome_iff_mem.mpr (h _ (find_isSome_iff_mem.mp (hc sec hsec)))
 
 theorem mids_modifyAt (f : Tr → Tr) : ∀ (ts : List Tr) (i : Nat),
     (∀ t, ts[i]? = some t → (f t).mid = t.mid) → (modifyAt f ts i).map (·.mid) = ts.map (·.mid)
@@ -785,10 +739,10 @@ theorem find_forall2 {m : Nat} {ts ts1 : List Tr} (h : AllSafe ts ts1) {t : Tr}
 
 theorem Ext.ready {off : List Sec} {ts ts' : List Tr} (h : Ext ts ts') (hr : Ready off ts) : Ready off ts' := by
   obtain ⟨ts1, extra, rfl, hf, _⟩ := h
-  intro sec hsec d hsd
-  obtain ⟨t, h1, h2, h3⟩ := hr sec hsec d hsd
+  intro sec hsec
+  obtain ⟨t, h1, h2, h3⟩ := hr sec hsec
   obtain ⟨t', g1, g2⟩ := find_forall2 hf h1
-  refine ⟨t', ?_, by rw [g2.2.1, h2], g2.2.2 d h2 h3⟩
+  refine ⟨t', ?_, by rw [g2.2.1, h2], g2.2.2 _ h2 h3⟩
   rw [List.find?_append, g1]; rfl
 
 theorem Ext.append (ts : List Tr) (x : Tr) (hx : x.mid = none) : Ext ts (ts ++ [x]) :=
